@@ -363,8 +363,91 @@ func vC21Check(t vC21T, dir string, cs vC21Case) vC21Result {
 			}
 		}
 		vkit.Count("cleanups", 1)
+		if x != cs.Coord {
+			vC21FollowerResize(t, dir, cs, x, before, after, have, wantAfter, desc)
+			vkit.Count("follower-resizes", 1)
+		}
 	}
 	return res
+}
+
+func vC21Status(state string, members []string, coord string) *ClusterStatus {
+	st := &ClusterStatus{ClusterID: "cid", State: state}
+	for _, id := range members {
+		st.Nodes = append(st.Nodes, &Node{ID: id, URI: NewTestURI("http", fmt.Sprintf("host-%s", id), 10101), IsCoordinator: id == coord})
+	}
+	return st
+}
+
+// vC21FollowerResize drives a non-coordinator `cluster` with a real Holder through the status messages of a
+// real resize: (member of the old cluster: NORMAL with the old members) -> RESIZING with the old members (the
+// status every ResizeInstruction carries) -> the node follows its instruction (fragments created) -> NORMAL
+// with the NEW members. The cleanup that the node runs by itself on the RESIZING -> NORMAL transition must
+// leave exactly the fragments of shards the node owns under the new membership.
+func vC21FollowerResize(t vC21T, dir string, cs vC21Case, x string, before, after []string, have []vC21Frag, wantAfter map[vC21Frag]bool, desc func() string) {
+	xdir, err := ioutil.TempDir(dir, "follower-")
+	if err != nil {
+		t.Fatalf("tempdir: %v", err)
+	}
+	defer os.RemoveAll(xdir)
+	// what the node holds before the resize starts: fragments of shards it owned (nothing for a joining node)
+	var held, fetched []vC21Frag
+	for _, fr := range have {
+		if vGXHas(vGXShardOwners(before, cs.R, fr.Index, fr.Shard), x) {
+			held = append(held, fr)
+		} else {
+			fetched = append(fetched, fr)
+		}
+	}
+	hx := vC21Holder(t, xdir, cs.Schema, held)
+	defer hx.Close()
+	c := newCluster()
+	c.ReplicaN = cs.R
+	c.Path = xdir
+	c.Topology = newTopology()
+	c.holder = hx
+	c.Node = &Node{ID: x, URI: NewTestURI("http", fmt.Sprintf("host-%s", x), 10101)}
+	c.Coordinator = cs.Coord
+	if err := c.addNode(c.Node); err != nil { // cluster.setup
+		t.Fatalf("follower addNode(self): %v", err)
+	}
+	selfURI := func(st *ClusterStatus) *ClusterStatus { return st }
+	if vGXHas(before, x) {
+		if err := c.mergeClusterStatus(selfURI(vC21Status(ClusterStateNormal, before, cs.Coord))); err != nil {
+			t.Fatalf("follower status NORMAL(old): %v", err)
+		}
+	}
+	if err := c.mergeClusterStatus(selfURI(vC21Status(ClusterStateResizing, before, cs.Coord))); err != nil {
+		t.Fatalf("follower status RESIZING: %v", err)
+	}
+	for _, fr := range fetched { // followResizeInstruction: createViewIfNotExists + CreateFragmentIfNotExists + copy
+		v := hx.view(fr.Index, fr.Field, fr.View)
+		if v == nil {
+			t.Fatalf("follower: view of %s missing", fr)
+		}
+		if _, err := v.CreateFragmentIfNotExists(fr.Shard); err != nil {
+			t.Fatalf("follower: creating fragment: %v", err)
+		}
+	}
+	if err := c.mergeClusterStatus(selfURI(vC21Status(ClusterStateNormal, after, cs.Coord))); err != nil {
+		t.Fatalf("follower status NORMAL(new): %v", err)
+	}
+	if got := c.nodeIDs(); fmt.Sprint(got) != fmt.Sprint(after) {
+		t.Fatalf("follower %s lists members %v after the resize, the coordinator announced %v; %s", x, got, after, desc())
+	}
+	got := vC21HolderFrags(hx)
+	for fr := range wantAfter {
+		if !got[fr] {
+			t.Fatalf("follower %s went RESIZING -> (copied its newly owned fragments) -> NORMAL with members %v: its own cleanup deleted %s although it owns shard %d now (owners after %v); %s",
+				x, after, fr, fr.Shard, vGXShardOwners(after, cs.R, fr.Index, fr.Shard), desc())
+		}
+	}
+	for fr := range got {
+		if !wantAfter[fr] {
+			t.Fatalf("follower %s after RESIZING -> NORMAL with members %v still holds %s which it does not own (owners after %v); %s",
+				x, after, fr, vGXShardOwners(after, cs.R, fr.Index, fr.Shard), desc())
+		}
+	}
 }
 
 var vC21IDPool = []string{"node0", "node1", "node2", "node3", "node4", "node5", "node6", "a-first", "node25", "zz-last"}
@@ -458,7 +541,18 @@ func TestVerifC21_Grid(t *testing.T) {
 								rest = append(rest, id)
 							}
 						}
-						cs.CleanOn = []string{rest[(ci+r)%len(rest)]}
+						// prefer a surviving non-coordinator (it learns the new membership from a status message)
+						var foll []string
+						for _, id := range rest {
+							if id != cs.Coord {
+								foll = append(foll, id)
+							}
+						}
+						if len(foll) > 0 {
+							cs.CleanOn = []string{foll[(ci+r)%len(foll)]}
+						} else {
+							cs.CleanOn = []string{rest[(ci+r)%len(rest)]}
+						}
 					}
 					if si == 1 && ci%3 != 0 {
 						cs.CleanOn = nil
